@@ -8,6 +8,7 @@ import (
 	"context"
 	"encoding/json"
 	"fmt"
+	badger "github.com/dgraph-io/badger/v2"
 	"os"
 	"sort"
 	"strings"
@@ -312,7 +313,7 @@ func (m *raftMonitor) onApplySync(n *simNode, group uuid.UUID, index uint64) {
 			}
 		}
 	}()
-	if m.s.dbClosed[n.parts.DB] {
+	if m.s.dbClosed[n.parts.DB] || !walHasGroup(n.parts.DB, group) {
 		return
 	}
 	w := wal.NewBadgerWAL(n.parts.DB, group)
@@ -397,6 +398,9 @@ func (m *raftMonitor) checkSnapshot(n *simNode, group uuid.UUID, why string) {
 	if sh == nil || sh.off || sh.p == nil || n.parts == nil || m.s.groupOn(n, group) == nil {
 		return
 	}
+	if !walHasGroup(n.parts.DB, group) {
+		return
+	}
 	snap, err := wal.NewBadgerWAL(n.parts.DB, group).Snapshot()
 	if err != nil || len(snap.Data) == 0 {
 		return
@@ -430,13 +434,34 @@ func (m *raftMonitor) checkSnapshot(n *simNode, group uuid.UUID, why string) {
 	}
 }
 
+// walHasGroup: does the database hold any log entry of the group? (Opening a log store
+// on an empty group writes its initial entry - the monitors must observe, never write.)
+func walHasGroup(db *badger.DB, group uuid.UUID) (has bool) {
+	defer func() {
+		if recover() != nil {
+			has = false
+		}
+	}()
+	db.View(func(txn *badger.Txn) error {
+		opt := badger.DefaultIteratorOptions
+		opt.PrefetchValues = false
+		opt.Prefix = group.Bytes()
+		it := txn.NewIterator(opt)
+		defer it.Close()
+		it.Rewind()
+		has = it.Valid()
+		return nil
+	})
+	return
+}
+
 // durableOf reads what the node's log store holds for a group through a
 // fresh store instance (cold cache), i.e. what would survive a crash now.
 func (m *raftMonitor) durableOf(n *simNode, group uuid.UUID) *durableSample {
 	if n.parts == nil {
 		return nil
 	}
-	if m.s.groupOn(n, group) == nil {
+	if m.s.groupOn(n, group) == nil || !walHasGroup(n.parts.DB, group) {
 		return nil
 	}
 	w := wal.NewBadgerWAL(n.parts.DB, group)
@@ -493,6 +518,7 @@ func (m *raftMonitor) onRaftMsg(from *simNode, to uint64, group uuid.UUID, msg r
 // onIO: after every completed durable write, sample the durable state of the
 // group and compare with the previous sample of the same (node, group).
 func (m *raftMonitor) onIO(n *simNode, group uuid.UUID, op string, before bool) {
+
 	if before || n.parts == nil {
 		if op == "reset" && before {
 			// the product deletes / recreates the group's store: expectations start over
@@ -512,6 +538,7 @@ func (m *raftMonitor) onIO(n *simNode, group uuid.UUID, op string, before bool) 
 	inc := n.inc
 	ek := fmt.Sprintf("%d/%s", n.id, group)
 	epoch := m.epoch[ek]
+
 	m.s.post(func() {
 		if !n.alive || n.inc != inc || m.epoch[ek] != epoch {
 			return
